@@ -49,7 +49,9 @@ def _case(draw):
     solver = draw(st.sampled_from(SOLVERS))
     if solver == "Newton":
         return {"solver": solver, "system": "statics", "n_load_steps": draw(st.integers(1, 12)), "k": draw(gen.f(1, 50))}
-    system = draw(st.sampled_from(["spring_mass", "pendulum"] + (["bounce", "bounce"] if solver in dynbuild.NONSMOOTH_SOLVERS else [])))
+    system = draw(st.sampled_from(["spring_mass", "pendulum"] + (["bounce", "bounce"] if solver in dynbuild.NONSMOOTH_SOLVERS else [])
+                                  # a force that blows up inside the horizon: scipy's step-size control gives up and the run ends early
+                                  + (["blow_up"] if solver == "ScipyIVP" else [])))
     dt = draw(st.sampled_from([0.1, 0.01, 0.05, 0.2, 0.025, 0.3, 0.07]))
     t0 = draw(st.sampled_from([0.0, 0.0, 0.5, 1.3]))
     k = draw(st.integers(2, 14))
@@ -101,6 +103,10 @@ def build_system(spec):
             system.add(Force(lambda t: t * np.array([0.5, 1.0, -2.0]), pm, name="load"))
         else:
             system.add(Force(np.array([0.0, 0.0, -9.81 * 1.5]), pm, name="gravity"))
+    elif kind == "blow_up":
+        pm = PointMass(1.0, q0=np.zeros(3), u0=np.zeros(3), name="pm")
+        tc = t0 + 0.45 * (spec["t1"] - t0)
+        system.add(pm, Force(lambda t: np.array([1.0, 0.0, 0.0]) / (tc - t) ** 2 if t < tc else np.array([np.inf, 0.0, 0.0]), pm, name="blow_up"))
     elif kind == "pendulum":
         rb = RigidBody(2.0, np.diag([0.1, 0.2, 0.3]), q0=np.array([0.7, 0.0, 0.0, 1.0, 0, 0, 0]), name="rb")
         system.add(rb)
@@ -142,6 +148,10 @@ def check(spec):
                 return res
             raise
         truncated = any("Returning solution up to" in w for w in wrn)
+        if spec["system"] == "blow_up":
+            # the integrator cannot pass the singularity: the run ends early (the end-point clause does not apply)
+            truncated = True
+            res.label("ivp_aborted_early" if len(sol.t) < int(math.ceil((spec["t1"] - spec["t0"]) / spec["dt"] - 1e-9)) + 1 else "ivp_passed_singularity")
         t0, dt, t1 = spec["t0"], spec["dt"], spec["t1"]
         nstar = int(math.ceil((t1 - t0) / dt - 1e-9))
         expected_t = t0 + dt * np.arange(nstar + 1)
